@@ -85,6 +85,9 @@ namespace sim
 
 	void http_proxy::on_read_request(error_code const& ec, size_t bytes_transferred) try
 	{
+		// cancelled by close_connection(): that connection is gone already
+		if (ec == asio::error::operation_aborted) return;
+
 		if (ec)
 		{
 			std::printf("http_proxy::on_read_request: (%d) %s\n"
@@ -216,6 +219,9 @@ namespace sim
 	void http_proxy::on_domain_lookup(boost::system::error_code const& ec
 		, const asio::ip::tcp::resolver::results_type ips)
 	{
+		// cancelled by close_connection(): that connection is gone already
+		if (ec == asio::error::operation_aborted) return;
+
 		if (ec || ips.empty())
 		{
 			if (ec)
@@ -250,11 +256,18 @@ namespace sim
 		memcpy(m_in_buffer, send_buffer.data(), send_buffer.size());
 		asio::async_write(m_client_connection, asio::buffer(
 			&m_in_buffer[0], send_buffer.size())
-			, std::bind(&http_proxy::close_connection, this));
+			, [this](error_code const& ec, size_t)
+			{
+				if (ec == asio::error::operation_aborted) return;
+				close_connection();
+			});
 	}
 
 	void http_proxy::on_connected(boost::system::error_code const& ec)
 	{
+		// cancelled by close_connection(): that connection is gone already
+		if (ec == asio::error::operation_aborted) return;
+
 		m_connecting = false;
 		if (ec)
 		{
@@ -284,6 +297,9 @@ namespace sim
 
 	void http_proxy::on_server_write(error_code const& ec, size_t bytes_transferred)
 	{
+		// cancelled by close_connection(): that connection is gone already
+		if (ec == asio::error::operation_aborted) return;
+
 		m_writing_to_server = false;
 		if (ec)
 		{
@@ -305,6 +321,9 @@ namespace sim
 	void http_proxy::on_server_receive(boost::system::error_code const& ec
 		, std::size_t bytes_transferred)
 	{
+		// cancelled by close_connection(): that connection is gone already
+		if (ec == asio::error::operation_aborted) return;
+
 		if (ec)
 		{
 			std::printf("http_proxy: error reading from server: (%d) %s\n"
@@ -320,6 +339,9 @@ namespace sim
 	void http_proxy::on_server_forward(error_code const& ec
 		, size_t)
 	{
+		// cancelled by close_connection(): that connection is gone already
+		if (ec == asio::error::operation_aborted) return;
+
 		if (ec)
 		{
 			std::printf("http_proxy: error writing to client: (%d) %s\n"
@@ -359,6 +381,8 @@ namespace sim
 			std::printf("http_proxy::close: failed to close server connection (%d) %s\n"
 				, err.value(), err.message().c_str());
 		}
+		m_resolver.cancel();
+		m_writing_to_server = false;
 
 		if (m_close) return;
 
